@@ -721,7 +721,21 @@ fn const_item_json<'tcx>(tcx: TyCtxt<'tcx>, did: DefId) -> Option<J> {
     let inst = Instance::mono(tcx, did);
     // a `static` (e.g. a `OnceLock` holding a lazily compiled regex) has no value tree: the const-eval query for values must not be
     // asked about it (it asserts); its existence and type are recorded, which is all the rules use
-    let val = if matches!(tcx.def_kind(did), DefKind::Static { .. }) { o(vec![("novaltree", s(ty))]) } else { eval_global(tcx, inst, None, ty) };
+    let val = if matches!(tcx.def_kind(did), DefKind::Static { .. }) {
+        // an immutable static without interior mutability is a constant table with an address: its initializer's allocation is read like
+        // an indirect constant; anything else (OnceLock, atomics, `static mut`) has no value here
+        let is_mut = format!("{:?}", tcx.def_kind(did)).contains("mutability: Mut");
+        let freeze = ty.is_freeze(tcx, TypingEnv::fully_monomorphized());
+        match (is_mut, freeze, tcx.eval_static_initializer(did)) {
+            (false, true, Ok(alloc)) => {
+                let alloc_id = tcx.reserve_and_set_memory_alloc(alloc);
+                constvalue_json(tcx, ConstValue::Indirect { alloc_id, offset: rustc_abi::Size::ZERO }, ty, 0)
+            }
+            _ => o(vec![("novaltree", s(ty))]),
+        }
+    } else {
+        eval_global(tcx, inst, None, ty)
+    };
     Some(o(vec![
         ("path", s(pretty_path(tcx, did))),
         ("item_kind", s(format!("{:?}", tcx.def_kind(did)))),
